@@ -84,7 +84,12 @@ func WriteFiles(dir string, files map[string]string) error {
 func BaseEnv() []string {
 	// a narrow terminal exported by the shell (as watch(1) or a preview pane do), a non-English locale, a pager:
 	// nothing of this is an input of the program, so no report may depend on it
-	return []string{"PATH=/usr/local/bin:/usr/bin:/bin", "HOME=/nonexistent-verif-home", "LANG=C", "COLUMNS=48", "LINES=12", "LC_ALL=tr_TR.UTF-8", "PAGER=cat"}
+	// plus the XDG base directories, and variables named like the program's flags that it does not document
+	// (only HR_DATABASE, HR_LOGFILE, HR_CONFIG, HR_DATE_FORMAT and HR_MAXDEPTH are), with false-like or empty values
+	return []string{"PATH=/usr/local/bin:/usr/bin:/bin", "HOME=/nonexistent-verif-home", "LANG=C", "COLUMNS=48", "LINES=12", "LC_ALL=tr_TR.UTF-8", "PAGER=cat",
+		"XDG_CONFIG_HOME=/nonexistent-verif-xdg/config", "XDG_DATA_HOME=/nonexistent-verif-xdg/data", "XDG_CACHE_HOME=/nonexistent-verif-xdg/cache",
+		"HR_SILENT=false", "HR_NO_COLOR=false", "HR_NO_DATABASE=false", "HR_NO_TOTALS=0", "HR_TOTALS_ONLY=", "HR_CSV=false", "HR_SHORTEN=0", "HR_COLLAPSE=false", "HR_COLLAPSE_LAST=",
+		"HR_DESC=false", "HR_GROUP_FOOD=0", "HR_USE_OLD_REG_REPORTER=false", "HR_TODAY=", "HR_BEGIN=", "HR_END=", "HR_SINGLE_ELEMENT=", "HR_SINGLE_FOOD=", "HR_INTERNAL_TEMPLATE_NAME="}
 }
 
 // ExecOpts are the knobs of an L1 run.
